@@ -84,7 +84,11 @@ func (j *jsonproto) Pack(m erpc.Message) error {
 	bb.Write(msg2)
 	bb.WriteString(strconv.FormatInt(int64(m.Mtype()), 10))
 	bb.Write(msg3)
-	bb.WriteString(strconv.Quote(m.ServiceMethod()))
+	// the service method is an arbitrary byte string: it is written with the JSON escapes the
+	// reader (gjson) knows, not with strconv.Quote, whose \a, \v and \xNN end the string there
+	bb.WriteByte('"')
+	bb.Write(escapeBody([]byte(m.ServiceMethod())))
+	bb.WriteByte('"')
 	bb.Write(msg4)
 	bb.WriteString(strconv.Quote(m.Status(true).QueryString()))
 	bb.Write(msg5)
